@@ -418,7 +418,7 @@ class Server(base_server.BaseServer):
             'upgrades': self._upgrades(sid, transport),
             'pingTimeout': int(self.ping_timeout * 1000),
             'pingInterval': int(
-                self.ping_interval + self.ping_interval_grace_period) * 1000,
+                (self.ping_interval + self.ping_interval_grace_period) * 1000),
             'maxPayload': self.max_http_buffer_size,
         })
         s.send(pkt)
